@@ -7,7 +7,7 @@ From Coq Require Import List String Ascii Bool ZArith.
 From Helm Require Import Values.Tree Chart.Paths Chart.Archive Chart.Files Chart.Save Chart.Load Gen.Limits
   Chart.Wf Chart.LoadProofs Chart.AgreeProofs Chart.RecProofs Chart.Examples15
   Chart.Ignore Chart.Utf8 Chart.Match Chart.MatchProofs Chart.IgnoreProofs
-  Chart.Wf2 Chart.Rt2Proofs Chart.Examples15b.
+  Chart.Wf2 Chart.Rt2Proofs Chart.Examples15b Chart.OrderProofs.
 Import ListNotations.
 Local Open Scope string_scope.
 
@@ -359,3 +359,39 @@ Example C15_save_load_roundtrip_ex :
                map f_name (c_files c') = ["requirements.yaml"; "README.md"; "requirements.lock"; "charts/dep-a-0.1.0.tgz.prov"].
 Proof. exact save_load_example. Qed.
 Print Assumptions C15_save_load_roundtrip_ex.
+
+(* ---------- LoadFiles does not depend on how the file list interleaves the subcharts ---------- *)
+(* Every file has a group (sub_name): None for the files the chart keeps itself (everything not
+   below charts/, and provenance files directly in charts/), Some n for the files handed to the
+   subchart charts/n.  If two file lists present every group in the same internal order -- however
+   the groups are interleaved, e.g. the subcharts in another order, or the parent's files between
+   those of a subchart -- LoadFiles gives the same result on both: the same error, or charts that
+   agree in metadata, lock, values, schema, templates, files AND dependencies (same charts, same
+   order: by name, fix 14399c3); only Raw, which is the input list itself, follows the input. *)
+Theorem C15_loadfiles_order_invariant :
+  forall (md_merge : meta -> string -> option meta) (lock_dec : string -> option (option lockv))
+         (parse_values : string -> option val) (untar : string -> tstream)
+         (sanitize : meta -> meta) (is_semver : string -> bool) (rest_valid : meta -> bool)
+         (maxt maxf : Z) (fuel : nat) (l1 l2 : list file),
+  (forall k : option string,
+     filter (fun f => key_eqb (sub_name f) k) l1 = filter (fun f => key_eqb (sub_name f) k) l2) ->
+  load_files md_merge lock_dec parse_values untar sanitize is_semver rest_valid maxt maxf fuel l2 =
+  match load_files md_merge lock_dec parse_values untar sanitize is_semver rest_valid maxt maxf fuel l1 with
+  | inl e => inl e
+  | inr c => inr (Chart (c_meta c) (c_lock c) l2 (c_values c) (c_schema c) (c_templates c) (c_files c) (c_deps c))
+  end.
+Proof. exact order_invariant. Qed.
+Print Assumptions C15_loadfiles_order_invariant.
+
+(* two presentations of one tree (subcharts foo, foo-bar, alpha; a provenance file in charts/):
+   the groups agree, the lists differ, both load, the dependencies are alpha, foo, foo-bar in both *)
+Example C15_loadfiles_order_invariant_ex :
+  (forall k, group k order_l1 = group k order_l2) /\
+  order_l1 <> order_l2 /\
+  exists c1 c2,
+    load_files mergeT lock_decK parseK untarK sanK semverK restT 1000 100 3 order_l1 = inr c1 /\
+    load_files mergeT lock_decK parseK untarK sanK semverK restT 1000 100 3 order_l2 = inr c2 /\
+    map dname (c_deps c1) = ["alpha"; "foo"; "foo-bar"] /\ c_deps c2 = c_deps c1 /\
+    map f_name (c_files c1) = ["charts/foo-1.0.0.tgz.prov"].
+Proof. exact order_example. Qed.
+Print Assumptions C15_loadfiles_order_invariant_ex.
